@@ -27,6 +27,21 @@ type specEnv struct {
 	acc     *[]access      // element reads recorded while evaluating a quantifier body
 }
 
+// finiteQ maps a generated quantified formula to a finite conjunction of instances;
+// used only for model search (replay), never for proofs.
+var finiteQ = map[string]string{}
+
+const finiteN = 12
+
+// regFinite registers instances body[v := base+c], c < finiteN, for quantified formula qf.
+func regFinite(qf, v, base, body string) {
+	var inst []string
+	for c := 0; c < finiteN; c++ {
+		inst = append(inst, strings.ReplaceAll(body, v, add(base, fmt.Sprint(c))))
+	}
+	finiteQ[qf] = and(inst...)
+}
+
 // access: one element read s[idx] inside a quantifier body.
 type access struct {
 	heapSel string // (select H arr)
@@ -81,8 +96,13 @@ func reindex(kind, K, lo, hi, body string, accs []access, nfr *int) string {
 		}
 		return fmt.Sprintf("(exists ((%s Int)) %s)", J, and(rng, b))
 	}
+	kform := imp(and(le(lo, K), lt(K, hi)), body)
 	if len(cands) == 0 || kind != "forall" {
-		return mk(K, and(le(lo, K), lt(K, hi)), body, "")
+		r := mk(K, and(le(lo, K), lt(K, hi)), body, "")
+		if kind == "forall" {
+			regFinite(r, K, lo, kform)
+		}
+		return r
 	}
 	var copies []string
 	for _, c := range cands {
@@ -92,7 +112,13 @@ func reindex(kind, K, lo, hi, body string, accs []access, nfr *int) string {
 		kexpr := sub(J, c.shift)
 		b = strings.ReplaceAll(b, K, kexpr)
 		rng := and(le(add(lo, c.shift), J), lt(J, add(hi, c.shift)))
-		copies = append(copies, mk(J, rng, b, "(select "+c.heapSel+" "+J+")"))
+		cp := mk(J, rng, b, "(select "+c.heapSel+" "+J+")")
+		if len(copies) == 0 {
+			regFinite(cp, K, lo, kform)
+		} else {
+			finiteQ[cp] = "true"
+		}
+		copies = append(copies, cp)
 	}
 	return and(copies...)
 }
@@ -682,6 +708,9 @@ func (e *specEnv) call(n *ast.CallExpr) Val {
 			f, s := e.eval(n.Args[0]), e.eval(n.Args[1])
 			nn := e.eval(n.Args[2]).C[0]
 			return Val{tBool, []string{and(eq(f.C[0], s.C[0]), le(s.C[1], f.C[1]), le(add(f.C[1], f.C[2]), add(s.C[1], nn)))}}
+		case "disjoint":
+			a, b := e.eval(n.Args[0]), e.eval(n.Args[1])
+			return Val{tBool, []string{or(not(eq(a.C[0], b.C[0])), le(add(a.C[1], a.C[2]), b.C[1]), le(add(b.C[1], b.C[2]), a.C[1]))}}
 		case "sameslice":
 			a, b := e.eval(n.Args[0]), e.eval(n.Args[1])
 			return Val{tBool, []string{and(eq(a.C[0], b.C[0]), eq(a.C[1], b.C[1]), eq(a.C[2], b.C[2]))}}
@@ -711,7 +740,9 @@ func (e *specEnv) call(n *ast.CallExpr) Val {
 				fs = append(fs, eq(sel(sel(e.t.heapGet(e.cur, hn, arr2Sort(c.Sort)), s.C[0]), bv), sel(sel(e.t.heapGet(e.old, hn, arr2Sort(c.Sort)), s.C[0]), bv)))
 			}
 			rng := and(le(add(s.C[1], lo), bv), lt(bv, add(s.C[1], hi)))
-			return Val{tBool, []string{fmt.Sprintf("(forall ((%s Int)) %s)", bv, imp(rng, and(fs...)))}}
+			qf := fmt.Sprintf("(forall ((%s Int)) %s)", bv, imp(rng, and(fs...)))
+			regFinite(qf, bv, add(s.C[1], lo), imp(rng, and(fs...)))
+			return Val{tBool, []string{qf}}
 		case "haskey":
 			m, k := e.eval(n.Args[0]), e.eval(n.Args[1])
 			mt := under(m.T).(*types.Map)
